@@ -1,6 +1,8 @@
 package rules
 
 import (
+	"golang.org/x/tools/go/ssa"
+
 	"polyverif/core"
 	"polyverif/eng"
 	"polyverif/ir"
@@ -32,6 +34,20 @@ func checkResetBeforeTx(c *core.Ctx, rule string) {
 	ht := eng.Obj(c, pkLedger, "LedgerStoreImp.handleTransaction")
 	if reset == nil || eb == nil || ht == nil {
 		return
+	}
+	checkMemDBResetTotal(c, rule+"(memdb)")
+	if cr := c.Fn(pkStorage, "CacheDB.Reset"); cr != nil {
+		if mr := eng.Obj(c, pkOverlayDB, "MemDB.Reset"); mr != nil {
+			var rets []ir.Sink
+			for _, b := range cr.Blocks {
+				if len(b.Instrs) > 0 {
+					if r, ok := b.Instrs[len(b.Instrs)-1].(*ssa.Return); ok && b != cr.Recover {
+						rets = append(rets, ir.Sink{Instr: r, Note: "return"})
+					}
+				}
+			}
+			eng.MustPassCall(c, rule+"(memdb)", cr, "MemDB.Reset", eng.CallPred(mr), rets, "return of CacheDB.Reset", nil)
+		}
 	}
 	hts := ir.CallsTo(eb, ht)
 	c.Floor("handleTransaction calls in executeBlock", len(hts), 1)
